@@ -291,6 +291,72 @@ def _fraction_forms_task(qts):
     return part
 
 
+def _fraction_cross_unit_task(qts):
+    """FractionScalars WITH a fraction part against amounts in another unit, on REUSED objects: the
+    sequence a<b, b<a, a<=b, b>=a, a<b, b<a (an answer must not depend on earlier comparisons)."""
+    from fractions import Fraction as Q
+
+    from .c18 import quantised
+
+    part = Part()
+    seq = [("<", 0), ("<", 1), ("<=", 0), (">=", 1), (">", 0), ("<", 0), ("<", 1), (">=", 0)]
+    opf = dict(ORDER)
+    with worlds.world("posc") as db:
+        model = Model(db)
+        for qt in qts:
+            units = db.GetUnits(qt)
+            try:
+                for u in units:
+                    model.factor(u)
+            except NotAffine:
+                continue
+            for u in units:
+                c = db.GetDefaultCategory(u)
+                if not c:
+                    continue
+                for v in units:
+                    if u == v:
+                        continue
+                    zero = db.Convert(qt, u, v, 0.0)
+                    for n, (num, den) in ((2, (3, 4)), (1, (3, 2))):
+                        cnum = db.Convert(qt, u, v, float(num)) - zero
+                        try:
+                            if abs(float(quantised(cnum)) - cnum) > 1e-12 * abs(cnum):
+                                part.count("cross_unit_pairs_skipped_numerator_quantisation")  # recorded class D11b, judged by C18
+                                continue
+                        except (ValueError, OverflowError):
+                            continue
+                        x = n + num / den
+                        conv = db.Convert(qt, u, v, x)
+                        sc = max(abs(conv), abs(zero))
+                        for kind, y in (("less", conv - 1e-6 * sc), ("greater", conv + 1e-6 * sc)):
+                            a = FractionScalar(c, FractionValue(n, (num, den)), u)
+                            b = FractionScalar(c, FractionValue(y), v)
+                            qa = model.tobase(u, Q(n) + Q(num, den))
+                            qb = model.tobase(v, y)
+                            done = []
+                            for name, swap in seq:
+                                part.count("evaluations")
+                                p, q, pa, qb_ = (b, a, qb, qa) if swap else (a, b, qa, qb)
+                                done.append("%s %s %s" % ("b" if swap else "a", name, "a" if swap else "b"))
+                                truth = {"<": pa < qb_, "<=": pa <= qb_, ">": pa > qb_, ">=": pa >= qb_}[name]
+                                try:
+                                    g = opf[name](p, q)
+                                except Exception as e:
+                                    part.violation("C08:fraction-cross-unit:%s %r %s vs %s %s:%s:raised" % (qt, (n, (num, den)), u, kind, v, " ; ".join(done)), {"error": repr(e)})
+                                    break
+                                if g != truth:
+                                    part.violation(
+                                        "C08:fraction-cross-unit:%s %r %s vs %s %s:%s" % (qt, (n, (num, den)), u, kind, v, " ; ".join(done)),
+                                        {"got": g, "a": repr(a), "b": repr(b)},
+                                        "from mc import worlds\nfrom barril.units import FractionScalar\nfrom barril.basic.fraction import FractionValue\nwith worlds.world('posc'):\n    a = FractionScalar(%r, FractionValue(%r, %r), %r)\n    b = FractionScalar(%r, FractionValue(%r), %r)\n    r = [%s]\n    print(a, b, r)\n    assert r[-1] == %r\n"
+                                        % (c, n, (num, den), u, c, y, v, ", ".join(done), truth),
+                                    )
+                                    break
+                        part.add("nontrivial", ("fcu", u, v))
+    return part
+
+
 # -- (e) equality / hash over the derived-quantity graph -------------------------------------------
 
 
@@ -343,6 +409,8 @@ def _dispatch(task):
         return _cross_task(task[1])
     if task[0] == "fraction_forms":
         return _fraction_forms_task(task[1])
+    if task[0] == "fraction_cross":
+        return _fraction_cross_unit_task(task[1])
     p = Part()
     if task[0] == "graph":
         _graph_equality(p, task[1])
@@ -359,12 +427,13 @@ def run(ctx):
     tasks += [("equality", None), ("graph", 3 if ctx.thorough else 2)]
     ffq = qts if ctx.thorough else ["length", "temperature", "pressure", "time", "volume", "mass"]
     tasks += [("fraction_forms", ffq[i::8]) for i in range(8) if ffq[i::8]]
+    tasks += [("fraction_cross", ffq[i::16]) for i in range(16) if ffq[i::16]]
     run_sharded(ctx, _dispatch, tasks)
     c = ctx.part.counters
     ctx.level = "exploration"
     ctx.rule = (
         "(a) every ordered unit pair of every quantity type x probes {less, greater by 1e-6; equal where exact as rationals and in both float directions} x 2 amounts x 4 order operators x both operand orders on Scalar and FractionScalar; "
-        "(b) every ordered pair of quantity types; (c) all ordered pairs of a %d-object zoo; (d) all ordered pairs of 15 FractionValue forms (proper, improper, fractional number, negative) in every unit of 6 (thorough: all) quantity types x 4 order operators; (e) all ordered pairs of the derived quantities of the depth-2 (thorough 3) composition graph, as Quantity and as Scalar: symmetric, consistent, hash-consistent; non-trivial = exact-equal probes in different units + equal zoo pairs; outcomes = probe kinds and (equal?, same class?)" % len(zoo())
+        "(b) every ordered pair of quantity types; (c) all ordered pairs of a %d-object zoo; (d) all ordered pairs of 15 FractionValue forms (proper, improper, fractional number, negative) in every unit of 6 (thorough: all) quantity types x 4 order operators; (d2) FractionScalars with a fraction part against less/greater amounts in every other unit of those types, a sequence of 8 comparisons on the same two objects; (e) all ordered pairs of the derived quantities of the depth-2 (thorough 3) composition graph, as Quantity and as Scalar: symmetric, consistent, hash-consistent; non-trivial = exact-equal probes in different units + equal zoo pairs; outcomes = probe kinds and (equal?, same class?)" % len(zoo())
     )
     ctx.states = c.get("pairs", 0)
     ctx.transitions = c.get("evaluations", 0)
